@@ -30,6 +30,7 @@ type World struct {
 	fnOf  map[*types.Func]*ssa.Function
 	eff   *effectTable
 	brk   map[token.Pos]string
+	brkArgs map[token.Pos][]string
 }
 
 const modulePath = "ti"
@@ -312,6 +313,7 @@ func isPtrToNamed(t types.Type, pkgPath, name string) bool {
 func (w *World) bracketExprAt(pos token.Pos) string {
 	if w.brk == nil {
 		w.brk = map[token.Pos]string{}
+		w.brkArgs = map[token.Pos][]string{}
 		for _, p := range w.Pkgs {
 			for _, f := range p.Syntax {
 				for _, d := range f.Decls {
@@ -331,6 +333,11 @@ func (w *World) bracketExprAt(pos token.Pos) string {
 						case *ast.CallExpr:
 							if _, dup := w.brk[x.Lparen]; !dup {
 								w.brk[x.Lparen] = renderExpr(p.TypesInfo, x, defs, 0)
+								var as []string
+								for _, a := range x.Args {
+									as = append(as, renderExpr(p.TypesInfo, a, defs, 0))
+								}
+								w.brkArgs[x.Lparen] = as
 							}
 						}
 						return true
@@ -340,6 +347,12 @@ func (w *World) bracketExprAt(pos token.Pos) string {
 		}
 	}
 	return w.brk[pos]
+}
+
+// callArgsAt renders the arguments of the call whose parenthesis is at pos.
+func (w *World) callArgsAt(pos token.Pos) []string {
+	w.bracketExprAt(pos)
+	return w.brkArgs[pos]
 }
 
 // accessorLocals: locals of body defined exactly once, by `x := <accessor chain>` where the
